@@ -34,7 +34,10 @@ PARTIAL = [
     "text fields: C18_delim_reads_back_text is the plain case; C18_text_field_reads_back_all / _value now cover EVERY text-field "
     "recommendation (any flags, any limit) composed with the writer's fold / prefix protocol (flags as write_char derives them from the "
     "analysis), the scanner model and decode_text / parse_value - side condition: the string consists of CIF 2.0 characters (okUnits .cif2: "
-    "in particular CR-free and NUL-free).  NOT covered: strings containing CR (no presentation reads back identically, see ASSUMPTIONS); "
+    "in particular CR-free and NUL-free); the clause 'write_char writes exactly this text field' additionally asks `cif_has_disallowed_chars s = 0` "
+    "(Model.hasDisallowed: write_char validates CIF 2.0 characters with the library's own test since the repair of F-disallowed-char-written; "
+    "its agreement with okUnits .cif2 is not proved here).  The multi-line triple-quote rule is `first_line + 3 <= limit` since the repair of "
+    "F-key-first-line (C18_delim_admissible).  NOT covered: strings containing CR (no presentation reads back identically, see ASSUMPTIONS); "
     "`within the length limit` for a text field means no line over CIF_LINE_LENGTH (the writer folds at 2048 whatever `length_limit` "
     "says - a limit below the line length cannot be honoured by a text field whose lines exceed it and the property's caller passes 2048)",
     "read-back is proved at token level (C18_delim_reads_back: scanner model of C01) and at the level of the value parse_value builds "
@@ -62,3 +65,6 @@ LEVEL_NOTE = ("Trusted: Lean kernel; hand-written model + correspondence; Spec/A
               "over the writer model (write_text, flags of write_char) and the decode_text model of C02 (C02_text_protocol, C02_text_total, C02_analysis_facts); "
               "it is additionally observed through the real cif_parse on every case and through cif_write + cif_parse for text fields.")
 TECHNIQUE = "Lean 4 proof (loop invariants, case analysis) about an executable model + exhaustive differential execution incl. read-back through the real parser"
+
+# ---- independent review rA (notes/review/rA-review.md): instances applying the new theorems to concrete strings ----
+LEAN_MODULES += ["CifModel.Props.ReviewRC18"]
